@@ -1128,7 +1128,7 @@ Definition naive_r : mol :=
   mkMol [(1, mkAtom 6 None 0 false (Some 3) None); (2, mkAtom 6 None 0 false (Some 3) None)]
         [(1, [(2, mkBond 1 None)]); (2, [(1, mkBond 1 None)])].
 Definition naive_p : mol := mkMol [] [].
-Theorem compose_dynamic_naive_refuted :
+Theorem compose_unbalanced_convention :
   exists r p h n m, wf_mol r = true /\ wf_mol p = true /\ compose r p = Ok h /\
     ord_in r n m <> ord_in p n m /\ ~ is_dynamic_bond h n m.
 Proof.
